@@ -299,6 +299,12 @@ def run_op(s, op, a, tmp, i, rr):
         if op.get('close_first', True):
             s.call('close')
         return s.call('connect')
+    if op.get('refuse'):
+        s.dev.refuse_open = lambda dest: True
+        try:
+            return run_op(s, {k: v for k, v in op.items() if k != 'refuse'}, a, tmp, i, rr)
+        finally:
+            s.dev.refuse_open = lambda dest: False
     if 'budget' in op:
         s.dev.budget = op['budget']
         try:
@@ -534,6 +540,10 @@ def gen_session(rng, idx, big=False, adversarial=False, ops_max=6, allow=('shell
         # legal but unusual device behaviour, and local failures in the middle of a transfer
         spec['version'] = rng.choice([0x01000000, 0x01000001, 0x01000000, 0xFFFFFFFF, 0])
         spec['eager'] = rng.random() < 0.5
+        if ops and rng.random() < 0.2:
+            j_ = rng.randrange(len(ops))
+            ops[j_]['refuse'] = True                 # the device refuses this OPEN with CLSE(0, id)
+            ops[j_]['read_timeout_s'] = 1.0
         spec['reorder'] = rng.random() < 0.5
         for op in ops:
             if op['api'] in ('shell', 'exec_out', 'streaming_shell') and rng.random() < 0.3 and op['chunks']:
